@@ -75,6 +75,9 @@ namespace GeographicLib {
     real sphi1, cphi1, sphi2, cphi2;
     Math::sincosd(stdlat1, sphi1, cphi1);
     Math::sincosd(stdlat2, sphi2, cphi2);
+    if (cphi1 == 0 && cphi2 == 0 && sphi1 * sphi2 <= 0)
+      throw GeographicErr
+        ("Standard latitudes cannot be opposite poles");
     Init(sphi1, cphi1, sphi2, cphi2, k1);
   }
 
